@@ -252,8 +252,6 @@ theorem runN_log (ho : StrictOrder lt) (hr : Ranked env lt) : ∀ d, EvalL env l
         omega
 
 /-- under `NoCatch` a failed callee makes the caller fail: a call that RETURNS has rolled nothing back -/
-def NoRb (s s' : St) : Prop := s'.rolledback = s.rolledback
-
 theorem runBody_noRb (f : Node → St → Res × St)
     (hf : ∀ m s w, (f m s).1 = .ok w → (f m s).2.rolledback = s.rolledback) :
     ∀ (p : Prog), NoCatch p → ∀ (s : St) (v : Val), (runBody env f p s).1 = .ok v →
